@@ -433,6 +433,7 @@ func runC10(c *core.Ctx) {
 	c.Floor("test.globals", 2)
 
 	checkInstrumentWriteBack(c)
+	checkDefinitionsRestore(c)
 	checkInstrumentDuplicates(c)
 	checkTestTimeTreeWrites(c)
 	_ = all
@@ -951,4 +952,73 @@ func memoCacheOnly(prog *core.Program, reach map[*ssa.Function]bool, name string
 		return ""
 	}
 	return "memo table: every entry is an immutable value computed by pure library calls from what its key is computed from, and the only other writes are resets; an entry left by another test is what this test would compute"
+}
+
+// checkDefinitionsRestore (test.defsrestore): a describe group adds its subroutines to the definitions shared by all
+// tests of the file for as long as it runs. Taking them out again must give back what was there: a plain
+// `delete(defs.Subroutines, name)` also removes a top-level subroutine of the same name, and an ungrouped test that
+// mocks or calls it passes or fails depending on whether the group ran before it. Required: the function that deletes
+// from the shared map also looks the name up (comma-ok) before it overwrites, and writes the saved entry back where it
+// deletes.
+func checkDefinitionsRestore(c *core.Ctx) {
+	isDefs := func(m ssa.Value) bool {
+		for x := range core.BackSliceLocal(m) {
+			if f := core.FieldOf(x); f != nil && f.Name() == "Subroutines" && strings.HasSuffix(core.FieldOwner(x), "/tester/function.Definiions") {
+				return true
+			}
+		}
+		return false
+	}
+	n := 0
+	for _, fn := range c.Prog.ModuleFuncs("tester") {
+		for _, b := range fn.Blocks {
+			for _, in := range b.Instrs {
+				call, ok := in.(*ssa.Call)
+				if !ok {
+					continue
+				}
+				bi, isBi := call.Common().Value.(*ssa.Builtin)
+				if !isBi || bi.Name() != "delete" || !isDefs(call.Common().Args[0]) {
+					continue
+				}
+				n++
+				top := fn
+				for top.Parent() != nil {
+					top = top.Parent()
+				}
+				// the same closure writes an entry back, and the enclosing function saved it with a comma-ok lookup
+				restores := false
+				for _, b2 := range fn.Blocks {
+					for _, i2 := range b2.Instrs {
+						if mu, isMu := i2.(*ssa.MapUpdate); isMu && isDefs(mu.Map) {
+							restores = true
+						}
+					}
+				}
+				saved := false
+				var scan func(f *ssa.Function)
+				scan = func(f *ssa.Function) {
+					for _, b2 := range f.Blocks {
+						for _, i2 := range b2.Instrs {
+							if lk, isLk := i2.(*ssa.Lookup); isLk && lk.CommaOk && isDefs(lk.X) {
+								saved = true
+							}
+						}
+					}
+					for _, a := range f.AnonFuncs {
+						scan(a)
+					}
+				}
+				scan(top)
+				key := core.FnName(top) + "|delete(defs.Subroutines)"
+				if restores && saved {
+					c.Discharge("test.defsrestore", key, in.Pos(), "the entry that was there before the group is saved and written back")
+				} else {
+					c.Report("test.defsrestore", key, in.Pos(), fmt.Sprintf("%s removes the group's subroutines from the shared definitions with a plain delete (saved before: %v, written back: %v): a top-level subroutine of the same name is gone for every test that runs after the group, so the verdict of an ungrouped test depends on the group being there", core.FnName(top), saved, restores))
+				}
+			}
+		}
+	}
+	c.Instances("test.defsrestore", 0)
+	_ = n
 }
